@@ -27,6 +27,9 @@ mod utils;
 /// Verification probe, only compiled with `--cfg mos_verif`
 #[cfg(mos_verif)]
 mod verif_probe;
+/// Verification hook H3 (schedule perturbation), only compiled with `--cfg mos_verif`
+#[cfg(mos_verif)]
+mod verif_sched;
 
 #[derive(argh::FromArgs, PartialEq, Eq, Debug)]
 /// mos - https://mos.datatra.sh
